@@ -63,28 +63,30 @@ def new_ctl(prefix='vlab-'):
 
 
 def reap_children(grace=0.0):
-    """Kill every leftover descendant of this process (managers, orphans)."""
+    """Kill every leftover descendant of this process (managers, orphans) - except multiprocessing's
+    resource tracker: killing it makes multiprocessing relaunch it later and waitpid() on the *old* tracker
+    pid, which by then may belong to a labtech worker (the worker is then reaped behind labtech's back)."""
     me = psutil.Process()
-    kids = me.children(recursive=True)
+    kids = []
+    for k in me.children(recursive=True):
+        try:
+            if 'resource_tracker' in ' '.join(k.cmdline()):
+                continue
+        except psutil.Error:
+            pass
+        kids.append(k)
     for k in kids:
         try:
             k.kill()
         except psutil.Error:
             pass
     psutil.wait_procs(kids, timeout=3)
-    # reap zombies of multiprocessing children
+    # let multiprocessing forget the children it knows about (polls each one by its own pid)
     try:
         import multiprocessing
         multiprocessing.active_children()
     except Exception:
         pass
-    while True:
-        try:
-            pid, _ = os.waitpid(-1, os.WNOHANG)
-            if pid == 0:
-                break
-        except ChildProcessError:
-            break
 
 
 def diag_process(pid, timeout=25):
@@ -255,6 +257,11 @@ def run_dag(scn, *, hooks_factory=None, keep=False, extra_hooks=None, before_run
         out.result = None
         out.exc = None
         out.ledger_obj = ledger
+
+        def _watchdog(*_a):
+            raise HarnessAbort('watchdog: run_tasks did not return within the general scenario bound')
+        signal.signal(signal.SIGALRM, _watchdog)
+        signal.alarm(scn.get('watchdog_s', 150))     # property-specific hooks may re-arm it with their own bound
         if before_run is not None:
             before_run(out)
         out.t_call = time.monotonic_ns()
@@ -269,6 +276,7 @@ def run_dag(scn, *, hooks_factory=None, keep=False, extra_hooks=None, before_run
         else:
             out.result = res
         out.t_return = time.monotonic_ns()
+        signal.alarm(0)
         if after_run is not None:
             after_run(out)
         if hooks is not None and isinstance(hooks, GateController):
